@@ -35,8 +35,8 @@ def configs(rtf, pl, seed=0, limit=None):
                   ("page_by2", {"page_by": ["g", "h"], "new_page": False}), ("page_by3", {"page_by": ["g", "h", "k"], "new_page": False}),
                   ("subline1", {"subline_by": ["g"]}), ("subline1_pb1", {"subline_by": ["g"], "page_by": ["h"], "new_page": False}),
                   ("group_by1", {"group_by": ["g"]})]
-    nrows = [40, 12, 7, 5, 4]
-    looks = ["default", "matrix", "percol", "widths", "notes_table", "notes_par", "noheader", "hdr_explicit", "no_repeat_header"]
+    nrows = [40, 12, 7, 5, 4, 2, 1]
+    looks = ["default", "matrix", "percol", "widths", "notes_table", "notes_par", "noheader", "hdr_explicit", "no_repeat_header", "border_widths", "place_first", "place_all", "borders"]
     combos = list(itertools.product(range(len(frames)), strategies, nrows, looks))
     rnd.shuffle(combos)
     combos.sort(key=lambda c: (c[3] != "default", 0))       # plain looks first (stable sort keeps the shuffle inside each class)
@@ -54,6 +54,7 @@ def configs(rtf, pl, seed=0, limit=None):
             nr, nc = df.shape
             bkw = dict(skw)
             kw = {}
+            pkw = {}
             if look == "matrix":
                 bkw["text_format"] = [["b" if (i + j) % 3 == 0 else ("i" if (i + j) % 3 == 1 else "") for j in range(nc)] for i in range(nr)]
                 bkw["text_font_size"] = [[8 + (i % 3) for j in range(nc)] for i in range(nr)]
@@ -69,6 +70,20 @@ def configs(rtf, pl, seed=0, limit=None):
                 kw["rtf_footnote"] = rtf.RTFFootnote(text="fn text", as_table=(look == "notes_table"))
                 kw["rtf_source"] = rtf.RTFSource(text="src text", as_table=(look == "notes_table"))
                 kw["rtf_title"] = rtf.RTFTitle(text="Title")
+            if look == "border_widths":
+                bkw["border_width"] = [10 + 5 * (j % 4) for j in range(nc)]
+                bkw["col_rel_width"] = [1 + (j % 3) for j in range(nc)]
+            if look in ("place_first", "place_all"):
+                opt = "first" if look == "place_first" else "all"
+                kw["rtf_title"] = rtf.RTFTitle(text="Title")
+                kw["rtf_footnote"] = rtf.RTFFootnote(text="fn text")
+                kw["rtf_source"] = rtf.RTFSource(text="src text", as_table=(look == "place_all"))
+                pkw.update(page_title=opt, page_footnote=opt, page_source=opt)
+            if look == "borders":
+                pkw.update(border_first="triple", border_last="dashed")
+                bkw["border_first"] = "dotted"
+                bkw["border_last"] = "thick"
+                kw["rtf_footnote"] = rtf.RTFFootnote(text="fn text", as_table=False)
             if look == "no_repeat_header":
                 bkw["pageby_header"] = False
             if look == "noheader":
@@ -76,7 +91,7 @@ def configs(rtf, pl, seed=0, limit=None):
             if look == "hdr_explicit":
                 shown = [c for c in df.columns if c not in set(skw.get("page_by", []) if (not skw.get("new_page") or skw.get("pageby_row") == "first_row") else []) | set(skw.get("subline_by", []))]
                 kw["rtf_column_header"] = [rtf.RTFColumnHeader(text=[c.upper() for c in shown])]
-            return rtf.RTFDocument(df=df, rtf_page=rtf.RTFPage(nrow=nrow), rtf_body=rtf.RTFBody(**bkw), **kw)
+            return rtf.RTFDocument(df=df, rtf_page=rtf.RTFPage(nrow=nrow, **pkw), rtf_body=rtf.RTFBody(**bkw), **kw)
         yield desc, build
         count += 1
         if limit and count >= limit:
@@ -335,3 +350,137 @@ def replayer(family, limit=400):
         return search(index, family, seed=seed or 0, limit=limit, saved=saved)
     fn.__name__ = f"replay_docs_{family}"
     return fn
+
+
+# ---- further clause families ------------------------------------------------------------------------------------------------------
+def _border_word(index_module_row, style):
+    return dict(index_module_row.BORDER_CODES).get(style, "")
+
+
+def make_check_borders(row_module):
+    def check(doc, rtf_text, parsed):
+        body, page = doc.rtf_body, doc.rtf_page
+        if isinstance(body, list):
+            return []
+        word = lambda st: row_module.BORDER_CODES.get(st, "").lstrip("\\")
+
+        def flat(v):
+            while isinstance(v, (list, tuple)) and v:
+                v = v[0]
+            return v if isinstance(v, str) else None
+        bl_body, bf_body = flat(body.border_last), flat(body.border_first)
+        pages = [p for p in parsed.pages if p.rows]
+        if not pages:
+            return []
+        bad = []
+        first_row = pages[0].rows[0]
+        shown = displayed_columns(doc)
+        if len(first_row.cells) == 1 and len(shown) > 1:
+            return []          # the document starts with a page_by heading row: outside what the C07 units state (see DESIGN 0a.4)
+        if page.border_first and any((c.borders["t"] or ("", 0, 0))[0] != word(page.border_first) for c in first_row.cells):
+            bad.append(f"first table row top edges {[c.borders['t'] for c in first_row.cells]} != page.border_first {page.border_first!r}")
+        last_row = pages[-1].rows[-1]
+        if page.border_last and any((c.borders["b"] or ("", 0, 0))[0] != word(page.border_last) for c in last_row.cells):
+            bad.append(f"last table row bottom edges {[c.borders['b'] for c in last_row.cells]} != page.border_last {page.border_last!r}")
+        for pi, p in enumerate(pages[:-1]):
+            r = p.rows[-1]
+            if bl_body and any((c.borders["b"] or ("", 0, 0))[0] != word(bl_body) for c in r.cells):
+                bad.append(f"page {pi + 1}: last row before the break has bottom edges {[c.borders['b'] for c in r.cells]}, body.border_last is {bl_body!r}")
+        return bad[:4]
+    return check
+
+
+def check_placement(doc, rtf_text, parsed):
+    """C06: title / footnote / source appear on exactly the pages their placement option selects (table documents of the family use the
+    marker texts 'Title', 'fn text', 'src text')."""
+    page = doc.rtf_page
+    n = len(parsed.pages)
+    bad = []
+
+    def on(p, text):
+        return any(it.kind == "par" and text in it.text for it in p.items) or any(text in (c.text or "") for r in p.rows for c in r.cells)
+    for comp, opt, text in ((doc.rtf_title, page.page_title, "Title"), (doc.rtf_footnote, page.page_footnote, "fn text"), (doc.rtf_source, page.page_source, "src text")):
+        if comp is None or not comp.text:
+            continue
+        for pi, p in enumerate(parsed.pages):
+            want = opt == "all" or (opt == "first" and pi == 0) or (opt == "last" and pi == n - 1)
+            if on(p, text) != want:
+                bad.append(f"page {pi + 1} of {n}: {text!r} {'present' if on(p, text) else 'absent'}, placement option is {opt!r}")
+    return bad[:4]
+
+
+def check_proportional(doc, rtf_text, parsed):
+    """C08: data-row boundaries divide the table width in proportion to col_rel_width of the DISPLAYED columns (within one twip)."""
+    body = doc.rtf_body
+    if isinstance(body, list) or body.col_rel_width is None:
+        return []
+    shown = displayed_columns(doc)
+    cols = list(doc.df.columns)
+    rel = list(body.col_rel_width)
+    if len(rel) != len(cols):
+        return []
+    w = [rel[cols.index(c)] for c in shown]
+    total = sum(w)
+    want, acc = [], 0.0
+    for x in w:
+        acc += x
+        want.append(round(doc.rtf_page.col_width * acc / total * 1440))
+    rows = data_rows_in_order(doc, parsed)
+    bad = []
+    k = 0
+    for pi, p in enumerate(parsed.pages):
+        for r in p.rows:
+            t = tuple(c.text for c in r.cells)
+            if k < len(rows) and (pi, t) == rows[k]:
+                got = [c.cellx for c in r.cells]
+                if len(got) == len(want) and any(abs(a - b) > 1 for a, b in zip(got, want)):
+                    bad.append(f"data row {k}: boundaries {got}, proportional boundaries of the displayed columns are {want}")
+                k += 1
+    return bad[:3]
+
+
+def check_border_widths(doc, rtf_text, parsed):
+    """C09: every data cell's border width is the attribute's value at its original column."""
+    body = doc.rtf_body
+    if isinstance(body, list) or body.group_by:
+        return []
+    shown = displayed_columns(doc)
+    cols = list(doc.df.columns)
+    bw = body.border_width
+    if bw is None:
+        return []
+
+    def at(i, j):
+        v = bw
+        if isinstance(v, (int, float)):
+            return v
+        if v and isinstance(v[0], (list, tuple)):
+            row = v[i % len(v)]
+            return row[j % len(row)]
+        return v[j % len(v)]
+    rows = data_rows_in_order(doc, parsed)
+    if len(rows) != doc.df.height:
+        return []
+    bad, k = [], 0
+    for pi, p in enumerate(parsed.pages):
+        for r in p.rows:
+            t = tuple(c.text for c in r.cells)
+            if k < len(rows) and (pi, t) == rows[k]:
+                for jj, c in enumerate(r.cells):
+                    want = at(k, cols.index(shown[jj]))
+                    for side in ("l", "t", "b"):
+                        b = c.borders.get(side)
+                        if b is not None and b[1] is not None and b[1] != want:
+                            bad.append(f"cell (row {k}, col {shown[jj]}) {side} border width {b[1]}, attribute says {want}")
+                k += 1
+    return bad[:4]
+
+
+FAMILIES.update({"placement": check_placement, "proportional": check_proportional, "border_widths": check_border_widths})
+_search_plain = search
+
+
+def search(index, family, seed=0, limit=400, saved=None):
+    if family == "borders" and "borders" not in FAMILIES:
+        FAMILIES["borders"] = make_check_borders(index.real_module("rtflite.row"))
+    return _search_plain(index, family, seed=seed, limit=limit, saved=saved)
